@@ -59,9 +59,16 @@ def _show(reqs, end) -> str:
     return "/".join(out) + " " + end
 
 
-def impl(case) -> str:
+def _run_cuts(stream: bytes, cuts) -> str:
+    """deliver the stream cut at the given offsets ([] = in one piece); a delivery is skipped once the
+    transport is disconnecting (a real transport stops reading after loseConnection)"""
     ch, t = _channel()
-    ch.dataReceived(bytes.fromhex(case["stream"]))
+    pos = 0
+    for c in list(cuts) + [len(stream)]:
+        k = max(c - pos, 0)
+        if not t.disconnecting:
+            ch.dataReceived(stream[pos:pos + k])
+        pos = max(pos, c)
     written = t.value()
     if BAD400 in written:
         end = "B" if (written.endswith(BAD400) and t.disconnecting) else "B?"
@@ -70,6 +77,14 @@ def impl(case) -> str:
     else:
         end = "W"
     return _show(ch.verif_log, end)
+
+
+def impl(case) -> str:
+    """whole-stream result, then one entry per further delivery plan ("=" when equal to the first)"""
+    stream = bytes.fromhex(case["stream"])
+    whole = _run_cuts(stream, [])
+    rest = [_run_cuts(stream, p) for p in case.get("plans", [])]
+    return "|".join([whole] + [("=" if r == whole else r) for r in rest])
 
 
 # ------------------------------------------------------------------------------------------
@@ -205,8 +220,18 @@ def _h11_requests(stream: bytes):
     return out
 
 
-def oracle(case, obs):
+def oracle(case, obs_all):
     stream = bytes.fromhex(case["stream"])
+    obs, *others = obs_all.split("|")
+    # C18 (every_history_agrees_with_whole_stream_parser): what is delivered is a function of the
+    # concatenated bytes; a delivery plan that gives something else moves a request boundary
+    for plan, r in zip(case.get("plans", []), others):
+        if r != "=":
+            na, nb = r.count("/") + (r[0] != " "), obs.count("/") + (obs[0] != " ")
+            kind = f"requests:{nb}->{na}" if na != nb else ("ending" if r[-1] != obs[-1] else "request-content")
+            return Failure(case, f"framing depends on segmentation: delivered in pieces cut at {plan[:12]}"
+                                 f"{'...' if len(plan) > 12 else ''}: {r[:240]} ; in one piece: {obs[:240]}",
+                           "seg:" + kind)
     if "B?" in obs:
         return Failure(case, "400 written but not last / connection not closing", "bad-request-not-final")
     want = _show(*ref_parse(stream))
@@ -357,6 +382,27 @@ def gen(rng, tier):
     for bad in [b"g\r\nabc\r\n", b"3\r\nabcXX", b"3;\x00\r\nabc\r\n0\r\n\r\n", b"-3\r\nabc\r\n", b"3\nabc\n0\n\n",
                 b"3\r\nabc\r\n0\r\nT: v\r\n\r\n", b"0003\r\nabc\r\n00\r\n\r\n", b"3 \r\nabc\r\n0\r\n\r\n", b" 3\r\nabc\r\n0\r\n\r\n"]:
         add(b"POST /c HTTP/1.1\r\nHost: h\r\nTransfer-Encoding: chunked\r\n\r\n" + bad + SENTINEL, "chunked-body")
+    # the same streams cut into deliveries (bounded): byte-wise, a few 2-way and multi-way cuts
+    for c in cases:
+        n = len(c["stream"]) // 2
+        if n < 2 or n > 3000:
+            continue
+        plans = [sorted(rng.randrange(1, n) for _ in range(rng.randrange(2, 6)))]
+        plans += [[rng.randrange(1, n)] for _ in range(4 if q else 8)]
+        if n <= 400:
+            plans.append(list(range(1, n)))
+        c["plans"] = plans
+    # chunked request followed by a pipelined request: EVERY 2-way cut (in particular inside the last-chunk
+    # line and the trailer section) and every pair of cuts inside "last chunk .. end of trailers"
+    for last in (b"0\r\n", b"0;x=y\r\n", b"000\r\n", b"0;\r\n"):
+        for trailers in (b"", b"T: v\r\n", b"T: v\r\nU: w\r\n"):
+            head = b"POST /a HTTP/1.1\r\nHost: h\r\nTransfer-Encoding: chunked\r\n\r\n3\r\nabc\r\n"
+            s = head + last + trailers + b"\r\n" + b"GET /b HTTP/1.1\r\nHost: h\r\n\r\n"
+            lo, hi = len(head), len(head) + len(last) + len(trailers) + 2
+            plans = [[i] for i in range(1, len(s))]
+            plans += [[i, j] for i in range(lo, hi + 1) for j in range(i + 1, hi + 2)]
+            plans.append(list(range(1, len(s))))
+            cases.append({"stream": s.hex(), "cls": "chunked-pipeline", "plans": plans})
     return cases
 
 
@@ -410,6 +456,17 @@ def to_coq(case):
 
 
 def shrink(case):
+    plans = case.get("plans", [])
+    if len(plans) > 1:
+        for p in plans:
+            yield {**case, "plans": [p]}
+        return
+    if plans:
+        p = plans[0]
+        for i in range(len(p)):
+            yield {**case, "plans": [p[:i] + p[i + 1:]]}
+    if plans:
+        return
     s = bytes.fromhex(case["stream"])
     for k in (len(SENTINEL), 8, 1):
         for j in range(0, len(s) - k + 1, k):
@@ -422,10 +479,14 @@ SPEC = Spec(
     coq_header="From C19 Require Import Model Run.",
     coq_fn="run_show",
     to_coq=to_coq,
+    model_equal=lambda c, a, b: a.split("|")[0] == b,
     nontrivial=lambda c, o: len(c["stream"]) > 40,
-    histogram=lambda c, o: c["cls"].split(":")[0] + " -> " + str(o.count("/") + (o[0] != " ")) + o[-1],
+    histogram=lambda c, o: (lambda w: c["cls"].split(":")[0] + " -> " + str(w.count("/") + (w[0] != " ")) + w[-1])(o.split("|")[0]),
     case_timeout=20.0,
-    rule="whole-stream deliveries: pipelines of 1-3 well-formed requests (token methods, 6 target forms, OWS and "
+    rule="each stream delivered in one piece (compared with the model and the RFC reference) and again byte-wise, at "
+         "4 random 2-way cuts and one random multi-way cut (all must agree with the one-piece result; sound by C18's "
+         "every_history_agrees_with_whole_stream_parser); chunked POST + pipelined GET with 4 last-chunk spellings x 0-2 "
+         "trailer lines at EVERY 2-way cut and every pair of cuts inside the last-chunk line / trailer section.  Streams: pipelines of 1-3 well-formed requests (token methods, 6 target forms, OWS and "
          "case variants, obs-fold, duplicate fields, Content-Length / chunked bodies incl. bodies that look like "
          "requests, Expect, Connection, HTTP/1.0) and random prefixes of them; each of the 256 byte values in the "
          "request-target; 22 malformed request lines x 0/1/2 leading blank lines; 16 malformed field lines x 3 "
